@@ -19,6 +19,7 @@ RULE = (
     "After every step: index/parent/output invariants, the slot list equals the model's (a new module takes the lowest empty position, nothing "
     "else moves), refused operations leave every project unchanged, every note's mod resolves to the module at that position or None. "
     "non-trivial = history fills a gap, or has a refused attach, or attaches after a save_load"
+    ' Also (added while the seeded-change rounds of DESIGN section 9 ran): Also: nested += lists, module origins (synth file, clone, clone of attached, parent= keyword), flags assigned on attached modules, one project written as an old version, histories on a project that already holds 253-300 modules.'
 )
 ASSUMPTIONS = [
     "attach_module(None) appends an empty position (as the reader does); empty positions at the end disappear on save/load",
